@@ -856,6 +856,7 @@ pub fn duration_to_formattable(
 // TODO: Update, optimize, and fix the below. is_valid_duration should probably be generic over a T.
 
 const TWO_POWER_FIFTY_THREE: i128 = 9_007_199_254_740_992;
+const TWO_POWER_THIRTY_TWO: f64 = 4_294_967_296.0;
 
 // NOTE: Can FiniteF64 optimize the duration_validation
 /// Utility function to check whether the `Duration` fields are valid.
@@ -902,15 +903,15 @@ pub(crate) fn is_valid_duration(
         }
     }
     // 3. If abs(years) ≥ 2**32, return false.
-    if years.abs() >= f64::from(u32::MAX) {
+    if years.abs() >= TWO_POWER_THIRTY_TWO {
         return false;
     };
     // 4. If abs(months) ≥ 2**32, return false.
-    if months.abs() >= f64::from(u32::MAX) {
+    if months.abs() >= TWO_POWER_THIRTY_TWO {
         return false;
     };
     // 5. If abs(weeks) ≥ 2**32, return false.
-    if weeks.abs() >= f64::from(u32::MAX) {
+    if weeks.abs() >= TWO_POWER_THIRTY_TWO {
         return false;
     };
 
@@ -921,19 +922,29 @@ pub(crate) fn is_valid_duration(
     // microseconds, or nanoseconds is an unsafe integer. This multiplication can be implemented
     // in C++ with an implementation of core::remquo() with sufficient bits in the quotient.
     // String manipulation will also give an exact result, since the multiplication is by a power of 10.
-    // Seconds part
-    let normalized_seconds = (days.0 as i128 * 86_400)
-        + (hours.0 as i128) * 3600
-        + minutes.0 as i128 * 60
-        + seconds.0 as i128;
-    // Subseconds part
-    let normalized_subseconds_parts = (milliseconds.0 as i128 / 1_000)
-        + (microseconds.0 as i128 / 1_000_000)
-        + (nanoseconds.0 as i128 / 1_000_000_000);
-
-    let normalized_seconds = normalized_seconds + normalized_subseconds_parts;
+    //
+    // The sum is computed exactly in integer nanoseconds. A field that exceeds the limit on its
+    // own is rejected first, which also keeps the `i128` arithmetic below in range.
+    let limit = TWO_POWER_FIFTY_THREE as f64;
+    if days.abs() >= limit
+        || hours.abs() >= limit
+        || minutes.abs() >= limit
+        || seconds.abs() >= limit
+        || milliseconds.abs() >= limit * 1e3
+        || microseconds.abs() >= limit * 1e6
+        || nanoseconds.abs() >= limit * 1e9
+    {
+        return false;
+    }
+    let normalized_nanoseconds = (days.0 as i128 * 86_400_000_000_000)
+        + (hours.0 as i128) * 3_600_000_000_000
+        + (minutes.0 as i128) * 60_000_000_000
+        + (seconds.0 as i128) * 1_000_000_000
+        + (milliseconds.0 as i128) * 1_000_000
+        + (microseconds.0 as i128) * 1_000
+        + nanoseconds.0 as i128;
     // 8. If abs(normalizedSeconds) ≥ 2**53, return false.
-    if normalized_seconds.abs() >= TWO_POWER_FIFTY_THREE {
+    if normalized_nanoseconds.abs() >= TWO_POWER_FIFTY_THREE * 1_000_000_000 {
         return false;
     }
 
